@@ -78,7 +78,7 @@ def run_items(modname, prop, tier, seed, items, timeout):
     try:
         scen = _scenario(modname)
         agg = {'n': 0, 'ticks': 0, 'stats': {}, 'cover': set(), 'viol': [], 'digests': [], 'samples': [],
-               'harness': [], 'nviol': 0}
+               'harness': [], 'nviol': 0, 'first_index': items[0][0] if items else 0}
         for index, item in items:
             rng = random.Random(derive_seed(seed, prop, tier, index))
             try:
@@ -206,10 +206,15 @@ def run_check(modname, tier, seed, workers=None, budget_s=None, only_index=None)
     nchunks = max(1, min(len(items), workers * 8))
     size = (len(items) + nchunks - 1) // nchunks
     chunks = [items[i:i + size] for i in range(0, len(items), size)]
+    # chunks are executed in a fixed pseudo-random order (the first one first): a run cut short by its time budget - a loaded machine - then still holds
+    # every part of the plan in proportion instead of losing whatever the plan lists last
+    order = [0] + sorted(range(1, len(chunks)), key=lambda i: (i * 2654435761) % 4294967296)
+    chunks = [chunks[i] for i in order]
     timeout = int(budget_s * 4 + 120)
 
     total = {'n': 0, 'ticks': 0, 'stats': {}, 'cover': set(), 'viol': [], 'samples': [], 'harness': [], 'nviol': 0}
     dig = hashlib.blake2b(digest_size=8)
+    all_digests = []           # (first plan index of the slice, [digest per run]): hashed in plan order, whatever order the slices were executed in
     truncated = False
     broken = None
     if workers == 1:
@@ -235,8 +240,7 @@ def run_check(modname, tier, seed, workers=None, budget_s=None, only_index=None)
             total['cover'].update(agg['cover'])
             total['viol'].extend(agg['viol'])
             total['harness'].extend(agg['harness'])
-            for d in agg['digests']:
-                dig.update(d.encode())
+            all_digests.append((agg.get('first_index', 0), agg['digests']))
             if len(total['samples']) < 3:
                 total['samples'].extend(agg['samples'][:3 - len(total['samples'])])
             if time.time() - t0 > budget_s and futs is not None and not truncated:
@@ -250,6 +254,10 @@ def run_check(modname, tier, seed, workers=None, budget_s=None, only_index=None)
     finally:
         if futs is not None:
             ex.shutdown(wait=True, cancel_futures=True)
+
+    for _, ds in sorted(all_digests, key=lambda p_: p_[0]):
+        for d in ds:
+            dig.update(d.encode())
 
     # ---- violations
     known = load_known()
